@@ -44,6 +44,9 @@ func (frame *RstStreamFrame) read(h ControlFrameHeader, f *Framer) error {
 		return err
 	}
 	frame.StreamId = frame.StreamId & 0x7fffffff
+	if frame.CFHeader.length != 8 {
+		return &Error{InvalidControlFrame, frame.StreamId}
+	}
 	if err := binary.Read(f.r, binary.BigEndian, &frame.Status); err != nil {
 		return err
 	}
@@ -64,6 +67,9 @@ func (frame *SettingsFrame) read(h ControlFrameHeader, f *Framer) error {
 	}
 	if numSettings > MaxNumSettings {
 		return fmt.Errorf("SettingsFrame with invalid numSettings: %d", numSettings)
+	}
+	if frame.CFHeader.length != 4+8*numSettings {
+		return &Error{InvalidControlFrame, 0}
 	}
 
 	frame.FlagIdValues = make([]SettingsFlagIdValue, numSettings)
@@ -89,6 +95,9 @@ func (frame *PingFrame) read(h ControlFrameHeader, f *Framer) error {
 		return &Error{ZeroStreamId, 0}
 	}
 	if frame.CFHeader.Flags != 0 {
+		return &Error{InvalidControlFrame, StreamId(frame.Id)}
+	}
+	if frame.CFHeader.length != 4 {
 		return &Error{InvalidControlFrame, StreamId(frame.Id)}
 	}
 	return nil
